@@ -1546,7 +1546,14 @@ impl TypeLayout {
 
         log::debug!("lhs:{lhs:?} rhs:{rhs:?} f:{:?}", flags.deref());
 
-        if lhs == rhs {
+        // two lists, or two present optionals, are compared component by component by their arms below: trying `==` on them first
+        // would compare the components twice at every level of nesting (exponential in the depth of the type)
+        let by_components = matches!(
+            (lhs.as_ref(), rhs.as_ref()),
+            (Self::List(_), Self::List(_)) | (Self::Optional(Some(_)), Self::Optional(Some(_)))
+        );
+
+        if !by_components && lhs == rhs {
             return if flags.force_rhs_to_be_unwrapped_lhs {
                 let x = !rhs.is_optional().0;
                 log::debug!("x:{x}");
